@@ -15,6 +15,9 @@ POOL = ["abc", "x", "12", "-7", "1.5", "1/2", "nil", "t", ":kw", '"s t"', '"a\\"
         "'(a b)", "`(a ,b ,@c)", "''x", "#'(lambda (x) x)", "#(1 #(2))", "(quote x)", "(a . (b . c))",
         # multi-byte code points inside strings, |symbols|, characters and plain symbols
         '"h\u00e9llo w\u00f6rld"', "|\u00e9 t\u00e9|", "#\\\u00e9", "caf\u00e9", '"\U0001F600 ok"', '"tab\\tin"', "|a\\|b|"]
+# texts with forms that set the reader's variables when a consumer evaluates them while the rest is still being read
+SETTERS = ["(setq *read-base* 16) 10 11 '(12 ff)", "(setq *read-base* 8) 17", "(setq *read-default-float-format* 'single-float) 1.5 2.5d0 (1.25)",
+           "12 (setq *read-base* 2) 101 #xff 11"]
 BASES = [0, 2, 8, 16, 36]
 FFMTS = ["", "single-float", "double-float", "long-float", "short-float"]
 SEPS = [" ", "\n", "  "]
@@ -113,6 +116,13 @@ def run(tier, seed):
                     add(pre, cuts, entry, full=text)
                 if k % 3 == 0:
                     add(pre, cuts, "stream" if cuts else "each", full=text, eofwith=True)
+    # (d) a consumer that evaluates the forms as they arrive, texts whose forms change the reader's settings: every single cut,
+    # bytewise, end reported with the last bytes
+    for text in SETTERS:
+        n = len(text.encode())
+        for cuts in [[]] + [[c] for c in range(1, n)] + [list(range(1, n))]:
+            add(text, cuts, "each-eval")
+            add(text, cuts, "each-eval", eofwith=True)
     open_feats = {f["feature"]: f for f in common.load_findings(PROP) if f.get("status") == "open"}
     events = pipeline.drive(vdrive, "c02", stimuli, chunk=5000)
     res = pipeline.accept(SPEC, "ReaderTrace", "ReaderTrace.cfg", events, timeout=1500)
